@@ -22,6 +22,19 @@ REPO = os.environ.get("VERIF_REPO", "/repo")
 CACHE = os.path.join(ROOT, ".cache")
 COQ = os.path.join(ROOT, "coq")
 OCAML = os.path.join(ROOT, "ocaml")
+if REPO != "/repo":
+    # a run against another checkout (mutation testing) gets a private copy of the Coq tree and of the
+    # extracted drivers, so that constants / functions regenerated from THAT checkout never disturb (or are
+    # disturbed by) runs against /repo
+    _ALT = os.path.join(CACHE, "alt-" + hashlib.sha1(REPO.encode()).hexdigest()[:10])
+    os.makedirs(_ALT, exist_ok=True)
+    for _d in ("coq", "ocaml"):
+        subprocess.run(["rsync", "-a", "--exclude", "Makefile", "--exclude", "Makefile.conf", "--exclude", ".Makefile.d",
+                        "--exclude", "_CoqProject", "--exclude", ".lia.cache", "--exclude", ".nia.cache",
+                        os.path.join(ROOT, _d) + "/", os.path.join(_ALT, _d) + "/"], check=False)
+    COQ = os.path.join(_ALT, "coq")
+    OCAML = os.path.join(_ALT, "ocaml")
+RUNCACHE = CACHE if REPO == "/repo" else _ALT   # build products that depend on the generated files
 GUARD = "redb_verif"
 NCPU = os.cpu_count() or 4
 
@@ -81,7 +94,7 @@ def coq_files():
 
 def coq_prepare():
     """Regenerate Gen/Consts.v from the sources (Tie 1), _CoqProject and Makefile."""
-    rc, out = sh([sys.executable, os.path.join(ROOT, "tools", "gen_consts.py")], env={"VERIF_REPO": REPO})
+    rc, out = sh([sys.executable, os.path.join(ROOT, "tools", "gen_consts.py")], env={"VERIF_REPO": REPO, "VERIF_COQ": COQ})
     if rc != 0:
         return False, "gen_consts failed:\n" + out
     files = coq_files()
@@ -100,7 +113,7 @@ def coq_prepare():
 def coq_make(targets, timeout=1500, keep_going=False):
     """make the given .vo targets (paths relative to coq/). Full .vo builds only."""
     os.makedirs(os.path.join(OCAML, "gen"), exist_ok=True)
-    with Locked("coq"):
+    with Locked("coq" if REPO == "/repo" else "coq-" + hashlib.sha1(REPO.encode()).hexdigest()[:10]):
         ok, msg = coq_prepare()
         if not ok:
             return False, msg
@@ -177,15 +190,20 @@ def props_theorems(pid):
 
 def print_assumptions(pid, names):
     """Run Print Assumptions for each name (fresh coqc run, so it is reported on every check)."""
-    d = os.path.join(CACHE, "pa")
+    d = os.path.join(RUNCACHE, "pa")
     os.makedirs(d, exist_ok=True)
-    f = os.path.join(d, "PA_%s.v" % pid)
+    f = os.path.join(d, "PA_%s_%d.v" % (pid, os.getpid()))
     with open(f, "w") as fh:
         fh.write("Require Import RV.Props.%s.\n" % pid)
         for n in names:
             fh.write('Goal True. idtac "@@BEGIN %s". Abort.\nPrint Assumptions RV.Props.%s.%s.\n' % (n, pid, n))
         fh.write('Goal True. idtac "@@END". Abort.\n')
     rc, out = sh(["coqc", "-noglob", "-Q", COQ, "RV", f], cwd=d, timeout=600)
+    for ext in (".v", ".vo", ".vok", ".vos", ".glob"):
+        try:
+            os.remove(f[:-2] + ext)
+        except OSError:
+            pass
     res = {}
     if rc != 0:
         return None, out
@@ -256,7 +274,7 @@ def ocaml_driver(name, timeout=900):
     ok, out = coq_make([ex], timeout=timeout)
     if not ok or not os.path.exists(ml):
         return None, "extraction failed:\n" + out
-    bindir = os.path.join(CACHE, "ocamlbin")
+    bindir = os.path.join(RUNCACHE, "ocamlbin")
     os.makedirs(bindir, exist_ok=True)
     exe = os.path.join(bindir, "%s_driver" % name)
     drv = os.path.join(OCAML, "%s_driver.ml" % name)
@@ -265,7 +283,7 @@ def ocaml_driver(name, timeout=900):
         newest = max(os.path.getmtime(s) for s in srcs)
         if os.path.exists(exe) and os.path.getmtime(exe) >= newest:
             return exe, "cached"
-        bd = os.path.join(CACHE, "ocamlbuild-" + name)
+        bd = os.path.join(RUNCACHE, "ocamlbuild-" + name)
         shutil.rmtree(bd, ignore_errors=True)
         os.makedirs(bd)
         for s in srcs:
